@@ -133,6 +133,9 @@ CHECKS = {
                 "non-trivial = a close or drop happened while messages were outstanding",
         "assumptions": ["what a sender 'knows' is read from the H2 hook marking the dispatcher's processing of ReceiveClose/ReceiveFinish"],
         "legs": [
+            # sending endpoint of a remote mpsc channel: local queue, back channel, biased select (deviation = seeded change C11_m2)
+            model("Mpsc_MC.cfg", spec="Mpsc.tla", min_states=150),
+            model("Mpsc_DevQueueFirst.cfg", spec="Mpsc.tla", expect_violation="C11_NoStartAfterCloseArrived"),
             model("ChmuxLife_MC1S.cfg", spec="ChmuxLife.tla", min_states=100000, quick_only=True),
             model("ChmuxLife_MC1C.cfg", spec="ChmuxLife.tla", min_states=1000000, thorough_only=True, timeout=1800),
             life_leg("life_data", (150, 3000), {"connects": 4}, require={r'"kind":"close"': 50, r'"err":"closed_graceful"': 10,
